@@ -1,6 +1,6 @@
 (* C18 — proof scripts *)
 From Coq Require Import List ZArith NArith QArith Bool Lia.
-Require Import QV.C18.Model QV.C18.Spec.
+Require Import QV.C18.Model QV.C18.Spec QV.C18.Proofs_alist QV.C18.Proofs_route QV.C18.Proofs_inv.
 Import ListNotations.
 
 (* a call that raises anything but ProgramOverwriteException leaves every object as it was *)
@@ -33,3 +33,103 @@ Proof.
   - unfold arm_program in H. destruct (lookup name (regs st)); inversion H; auto.
   - unfold run_program in H. destruct (lookup name (regs st)); inversion H; auto.
 Qed.
+
+(* ---- corollaries of the generator-side invariant ---------------------------------------------------------------- *)
+
+
+Lemma inv_awg_gone dm st n a :
+  routing_inv_awg dm st -> lookup n (regs st) = None -> awg_gone n (awg_of st a) = true.
+Proof.
+  intros [_ [Hex _]] L. specialize (Hex a). apply awg_exact_iff in Hex as [_ [B _]].
+  unfold awg_gone, has_key. destruct (lookup n (a_progs (awg_of st a))) as [e|] eqn:E; auto.
+  destruct (B _ _ (lookup_In _ _ _ E)) as [r [Lr _]]. congruence.
+Qed.
+
+Lemma removed_gone_awg dm h name a :
+  guard_C18_rewire dm init_state h = true ->
+  awg_gone name (awg_of (fst (remove_program (run dm init_state h) name)) a) = true.
+Proof.
+  intros G. pose proof (inv_awg_histories dm h G) as Hinv.
+  destruct (remove_program (run dm init_state h) name) as [st' e] eqn:R. cbn.
+  pose proof (inv_awg_remove dm _ _ _ _ Hinv R) as Hinv'.
+  apply (inv_awg_gone dm); auto.
+  unfold remove_program in R. destruct (lookup name (regs (run dm init_state h))) as [r|] eqn:L.
+  - inversion R; subst. cbn. rewrite lookup_remove, N.eqb_refl. auto.
+  - inversion R; subst. auto.
+Qed.
+
+Lemma cleared_empty_awg dm h a :
+  guard_C18_rewire dm init_state h = true ->
+  a_progs (awg_of (fst (clear_programs (run dm init_state h))) a) = [].
+Proof.
+  intros G. pose proof (inv_awg_histories dm h G) as Hinv.
+  destruct (clear_programs (run dm init_state h)) as [st' e] eqn:R. cbn.
+  pose proof (inv_awg_clear dm _ _ _ Hinv R) as Hinv'.
+  destruct (a_progs (awg_of st' a)) as [|[n e0] l] eqn:P; auto.
+  assert (lookup n (regs st') = None) as L by (unfold clear_programs in R; inversion R; subst; auto).
+  pose proof (inv_awg_gone dm st' n a Hinv' L) as Gn. unfold awg_gone, has_key in Gn. rewrite P in Gn.
+  cbn in Gn. rewrite N.eqb_refl in Gn. discriminate.
+Qed.
+
+Lemma arm_post_awg dm h name st' :
+  guard_C18_rewire dm init_state h = true ->
+  arm_program (run dm init_state h) name = (st', None) ->
+  exists r, lookup name (regs st') = Some r
+            /\ forall a, awg_arm_post (chmap st') name (r_chans r) a (awg_of st' a) = true.
+Proof.
+  intros G H. pose proof (inv_awg_histories dm h G) as Hinv. set (st := run dm init_state h) in *.
+  unfold arm_program in H. destruct (lookup name (regs st)) as [r|] eqn:L; [|discriminate].
+  inversion H; subst st'; clear H. exists r. split; auto. intros a.
+  destruct Hinv as [_ [_ [Hrec _]]].
+  set (g := fun (a : N) (v : awg_st) =>
+              {| a_progs := a_progs v; a_armed := if memN a (r_awgs r) then Some name else None |}).
+  assert (awg_of (arm_devices st name r) a
+          = if memN a (known_awgs (chmap st)) then g a (awg_of st a) else awg_of st a) as Hpt.
+  { unfold arm_devices. cbn.
+    pose proof (fold_upd_pointwise g (fun _ => false) (known_awgs (chmap st)) (fun _ _ => eq_refl) (awg_of st) a) as P.
+    cbn in P. rewrite andb_true_r in P. exact P. }
+  unfold awg_arm_post. rewrite Hpt. change (chmap (arm_devices st name r)) with (chmap st).
+  rewrite <- (Hrec _ _ L a).
+  destruct (memN a (r_awgs r)) eqn:M.
+  - rewrite (Hrec _ _ L a) in M. rewrite (uses_known _ _ _ M). unfold g. cbn.
+    rewrite <- (Hrec _ _ L a) in M. rewrite M. apply N.eqb_refl.
+  - destruct (memN a (known_awgs (chmap st))); auto. unfold g. cbn. rewrite M. auto.
+Qed.
+
+(* ---- the unguarded invariant is false: known finding C18-rewire-stale ------------------------------------------- *)
+Definition rewire_dims : dims := fun _ => (2%Z, 1%Z).
+Definition rewire_history : list op :=
+  [ OSetChannel 0 (ChMany [{| s_awg := 0; s_idx := 0; s_marker := false; s_trafo := 0 |}] false) false;
+    ORegister 0 {| p_tag := 1; p_chans := [0%N]; p_meas := [] |} (Some 1%N) false [0%N];
+    OSetChannel 0 (ChMany [{| s_awg := 1; s_idx := 1; s_marker := false; s_trafo := 0 |}] false) false ].
+
+Lemma rewire_refutes : ~ routing_inv_awg rewire_dims (run rewire_dims init_state rewire_history).
+Proof.
+  intros [_ [Hex _]]. specialize (Hex 0%N). vm_compute in Hex. discriminate.
+Qed.
+
+Lemma rewire_all_return_normally :
+  forallb (fun k => match snd (step rewire_dims (run rewire_dims init_state (firstn k rewire_history))
+                                    (nth k rewire_history OClear)) with None => true | Some _ => false end)
+          [0; 1; 2]%nat = true.
+Proof. vm_compute. reflexivity. Qed.
+
+(* non-vacuity: a history with registration on two generators, update that drops one of them, arming, removal and a
+   harmless re-wiring satisfies the guard *)
+Definition guard_example_history : list op :=
+  [ OSetChannel 0 (ChMany [{| s_awg := 0; s_idx := 0; s_marker := false; s_trafo := 0 |}] false) false;
+    OSetChannel 1 (ChMany [{| s_awg := 1; s_idx := 1; s_marker := false; s_trafo := 2 |};
+                           {| s_awg := 0; s_idx := 0; s_marker := true; s_trafo := 0 |}] false) false;
+    ORegister 0 {| p_tag := 1; p_chans := [0%N; 1%N]; p_meas := [] |} (Some 1%N) false [0%N; 1%N];
+    OArm 0;
+    ORegister 0 {| p_tag := 2; p_chans := [0%N]; p_meas := [] |} (Some 2%N) true [0%N];
+    OSetChannel 2 (ChMany [{| s_awg := 1; s_idx := 0; s_marker := false; s_trafo := 0 |}] false) false;
+    ORegister 1 {| p_tag := 3; p_chans := [2%N; 1%N]; p_meas := [] |} (Some 3%N) false [1%N; 0%N];
+    ORun 1;
+    ORemove 0 ].
+
+Lemma guard_example :
+  guard_C18_rewire rewire_dims init_state guard_example_history = true
+  /\ keys (regs (run rewire_dims init_state guard_example_history)) = [1%N]
+  /\ keys (a_progs (awg_of (run rewire_dims init_state guard_example_history) 1%N)) = [1%N].
+Proof. vm_compute. auto. Qed.
